@@ -1033,4 +1033,17 @@ theorem tick_deadline_aligned (iv : Interval) (now d : Nat) (hf : iv.firstTicked
     have : now + iv.period > instMax := by omega
     simp [Interval.tickDeadline, hf, hp0, this] at h
 
+/-! ## `poll_with`: the fact that depends on the extracted statement list -/
+
+/-- whatever way the driver poll returned (short of an unexpected error), `poll_with` is `wake` -/
+theorem pollWith_eq_wake (w : Wheel) (now : Nat) (o : PollOutcome) (ho : o ≠ .otherError) :
+    pollWith w now o = some (wake w now) := by
+  cases o <;>
+    simp_all [pollWith, pollWithStmts, Compio.Gen.PollWith.body, Compio.Gen.PollWith.swallowedErrors,
+      PollOutcome.errName]
+
+theorem pollWith_panics (w : Wheel) (now : Nat) : pollWith w now .otherError = none := by
+  simp [pollWith, pollWithStmts, Compio.Gen.PollWith.body, Compio.Gen.PollWith.swallowedErrors,
+    PollOutcome.errName]
+
 end Compio.Timer
